@@ -174,4 +174,202 @@ func VersionRelation.SatisfiedBy
 
 property C06: (*Dependency).GetAllPossibilities, (*Dependency).GetSubstvars, VersionRelation.SatisfiedBy[deb], lemma cnt_mono, lemma cnt_lt, (*Dependency).GetPossibilities[deb], lemma archMatches_sym, (*Arch).IsWildcard, (*Arch).Is[deb], (*ArchSet).Matches[deb]
 
+// ---------- the dependency parser: cursor discipline, totality, termination (C18), rejection and shape facts (C04) ----------
+
+// byte under the cursor; 0 stands for "end of input" (the parser cannot tell it from a NUL byte)
+pure func peekAt(s string, k int) int { 0 <= k && k < len(s) ? s[k] : 0 }
+pure func isws(c int) bool { c == 13 || c == 10 || c == 32 || c == 9 }
+// terminators that end an alternative
+pure func isend(c int) bool { c == 44 || c == 124 || c == 0 }
+
+func (*input).Peek
+  requires i != nil && 0 <= i.Index
+  ensures result == peekAt(i.Data, i.Index)
+
+func (*input).Next
+  requires i != nil && 0 <= i.Index && i.Index <= len(i.Data) + 1
+  ensures result == peekAt(i.Data, old(i.Index)) && i.Index == old(i.Index) + 1
+  modifies i.Index
+
+func eatWhitespace
+  requires input != nil && 0 <= input.Index && input.Index <= len(input.Data) + 2
+  ensures input.Index >= old(input.Index) && !isws(peekAt(input.Data, input.Index))
+  ensures old(input.Index) <= len(input.Data) ==> input.Index <= len(input.Data)
+  ensures old(input.Index) > len(input.Data) ==> input.Index == old(input.Index)
+  ensures forall k int :: old(input.Index) <= k && k < input.Index ==> isws(input.Data[k])
+  modifies input.Index
+  loop 1:
+    invariant input.Index >= old(input.Index) && input.Index <= len(input.Data) + 2
+    invariant old(input.Index) <= len(input.Data) ==> input.Index <= len(input.Data)
+    invariant old(input.Index) > len(input.Data) ==> input.Index == old(input.Index)
+    invariant forall k int :: old(input.Index) <= k && k < input.Index ==> isws(input.Data[k])
+    decreases len(input.Data) + 2 - input.Index
+
+func parsePossibilityOperator
+  requires input != nil && version != nil && 0 <= input.Index && input.Index <= len(input.Data)
+  ensures input.Index >= old(input.Index) && input.Index <= len(input.Data) + 2
+  ensures result == nil ==> input.Index <= len(input.Data) && input.Index > old(input.Index)
+  // only the five operators of Policy 7.1 are accepted
+  ensures result == nil ==> version.Operator == "=" || version.Operator == ">=" || version.Operator == "<=" || version.Operator == "<<" || version.Operator == ">>"
+  modifies input.Index, version.Operator
+
+func parsePossibilityNumber
+  requires input != nil && version != nil && 0 <= input.Index && input.Index <= len(input.Data)
+  ensures input.Index >= old(input.Index) && input.Index <= len(input.Data)
+  // success only in front of the closing parenthesis: an unterminated "(..." is an error
+  ensures result == nil ==> peekAt(input.Data, input.Index) == 41
+  modifies input.Index, version.Number
+  loop 1:
+    invariant input.Index >= old(input.Index) && input.Index <= len(input.Data)
+    decreases len(input.Data) - input.Index
+
+func parsePossibilityVersion
+  requires input != nil && possi != nil && 0 <= input.Index && input.Index <= len(input.Data)
+  requires peekAt(input.Data, input.Index) == 40
+  ensures input.Index >= old(input.Index) && input.Index <= len(input.Data) + 2
+  ensures result == nil ==> input.Index <= len(input.Data) && input.Index > old(input.Index) && possi.Version != nil
+  ensures result == nil ==> input.Data[input.Index - 1] == 41
+  modifies input.Index, possi.Version
+
+func parsePossibilityArch
+  requires input != nil && possi != nil && possi.Architectures != nil && 0 <= input.Index && input.Index <= len(input.Data)
+  requires !isws(peekAt(input.Data, input.Index)) && peekAt(input.Data, input.Index) != 0 && peekAt(input.Data, input.Index) != 93
+  ensures input.Index >= old(input.Index) && input.Index <= len(input.Data) + 1
+  ensures result == nil ==> input.Index <= len(input.Data) && input.Index > old(input.Index)
+  ensures possi.Architectures == old(possi.Architectures)
+  modifies input.Index, possi.Architectures.Not, possi.Architectures.Architectures
+  loop 1:
+    invariant input.Index >= old(input.Index) && input.Index <= len(input.Data)
+    invariant possi.Architectures == old(possi.Architectures) && possi.Architectures != nil
+    invariant hasNot || input.Index > old(input.Index) || (peekAt(input.Data, input.Index) != 93 && !isws(peekAt(input.Data, input.Index)))
+    invariant hasNot ==> input.Index > old(input.Index)
+    decreases len(input.Data) - input.Index
+
+func parsePossibilityArchs
+  requires input != nil && possi != nil && possi.Architectures != nil && 0 <= input.Index && input.Index <= len(input.Data)
+  requires peekAt(input.Data, input.Index) == 91
+  ensures input.Index >= old(input.Index) && input.Index <= len(input.Data) + 1
+  ensures result == nil ==> input.Index <= len(input.Data) && input.Index > old(input.Index)
+  // success only behind the closing bracket: an unterminated "[..." is an error
+  ensures result == nil ==> input.Data[input.Index - 1] == 93
+  ensures possi.Architectures == old(possi.Architectures)
+  modifies input.Index, possi.Architectures.Not, possi.Architectures.Architectures
+  loop 1:
+    invariant input.Index > old(input.Index) && input.Index <= len(input.Data)
+    invariant possi.Architectures == old(possi.Architectures) && possi.Architectures != nil
+    decreases len(input.Data) - input.Index
+
+func parsePossibilityStage
+  requires input != nil && stageSet != nil && 0 <= input.Index && input.Index <= len(input.Data)
+  requires !isws(peekAt(input.Data, input.Index)) && peekAt(input.Data, input.Index) != 0 && peekAt(input.Data, input.Index) != 62
+  ensures input.Index >= old(input.Index) && input.Index <= len(input.Data)
+  ensures result == nil ==> input.Index > old(input.Index)
+  modifies input.Index, stageSet.Stages
+  loop 1:
+    invariant input.Index >= old(input.Index) && input.Index <= len(input.Data)
+    invariant input.Index > old(input.Index) || (peekAt(input.Data, input.Index) != 62 && !isws(peekAt(input.Data, input.Index)))
+    decreases len(input.Data) - input.Index
+
+func parsePossibilityStageSet
+  requires input != nil && possi != nil && 0 <= input.Index && input.Index <= len(input.Data)
+  requires peekAt(input.Data, input.Index) == 60
+  ensures input.Index >= old(input.Index) && input.Index <= len(input.Data)
+  ensures result == nil ==> input.Index > old(input.Index) && input.Data[input.Index - 1] == 62
+  modifies input.Index, possi.StageSets
+  loop 1:
+    invariant input.Index > old(input.Index) && input.Index <= len(input.Data)
+    decreases len(input.Data) - input.Index
+
+func parsePossibilityControllers
+  requires input != nil && possi != nil && possi.Architectures != nil && 0 <= input.Index && input.Index <= len(input.Data)
+  ensures input.Index >= old(input.Index) && input.Index <= len(input.Data) + 2
+  // success only in front of ',', '|' or the end: anything else after a name is "trailing garbage"
+  ensures result == nil ==> input.Index <= len(input.Data) && isend(peekAt(input.Data, input.Index))
+  ensures possi.Architectures == old(possi.Architectures)
+  modifies input.Index, possi.Version, possi.Architectures.Not, possi.Architectures.Architectures, possi.StageSets
+  loop 1:
+    invariant input.Index >= old(input.Index) && input.Index <= len(input.Data)
+    invariant possi.Architectures == old(possi.Architectures) && possi.Architectures != nil
+    decreases len(input.Data) - input.Index
+
+func parseMultiarch
+  requires input != nil && possi != nil && 0 <= input.Index && input.Index <= len(input.Data)
+  requires peekAt(input.Data, input.Index) == 58
+  ensures input.Index > old(input.Index) && input.Index <= len(input.Data)
+  modifies input.Index, possi.Arch
+  loop 1:
+    invariant input.Index > old(input.Index) && input.Index <= len(input.Data)
+    decreases len(input.Data) - input.Index
+
+func parseSubstvar
+  requires input != nil && relation != nil && 0 <= input.Index && input.Index <= len(input.Data)
+  requires peekAt(input.Data, input.Index) == 36
+  ensures input.Index >= old(input.Index) && input.Index <= len(input.Data) + 1
+  ensures result == nil ==> input.Index <= len(input.Data) && input.Index > old(input.Index) && isend(peekAt(input.Data, input.Index))
+  modifies input.Index, relation.Possibilities
+  loop 1:
+    invariant input.Index > old(input.Index) && input.Index <= len(input.Data)
+    decreases len(input.Data) - input.Index
+
+func parsePossibility
+  requires input != nil && relation != nil && 0 <= input.Index && input.Index <= len(input.Data)
+  ensures input.Index >= old(input.Index) && input.Index <= len(input.Data) + 2
+  ensures result == nil ==> input.Index <= len(input.Data) && isend(peekAt(input.Data, input.Index))
+  modifies input.Index, relation.Possibilities
+  loop 1:
+    invariant input.Index >= old(input.Index) && input.Index <= len(input.Data)
+    invariant ret.Architectures != nil
+    decreases len(input.Data) - input.Index
+
+func parseRelation
+  requires input != nil && dependency != nil && 0 <= input.Index && input.Index <= len(input.Data)
+  ensures input.Index >= old(input.Index) && input.Index <= len(input.Data) + 2
+  ensures result == nil ==> input.Index <= len(input.Data) && (peekAt(input.Data, input.Index) == 0 || peekAt(input.Data, input.Index) == 44)
+  modifies input.Index, dependency.Relations
+  loop 1:
+    invariant input.Index >= old(input.Index) && input.Index <= len(input.Data)
+    decreases len(input.Data) - input.Index
+
+func parseDependency
+  requires input != nil && ret != nil && 0 <= input.Index && input.Index <= len(input.Data)
+  ensures input.Index >= old(input.Index) && input.Index <= len(input.Data) + 2
+  // success only with the whole field consumed (up to a NUL byte)
+  ensures result == nil ==> input.Index <= len(input.Data) && peekAt(input.Data, input.Index) == 0
+  modifies input.Index, ret.Relations
+  loop 1:
+    invariant input.Index >= old(input.Index) && input.Index <= len(input.Data)
+    decreases len(input.Data) - input.Index
+
+
+// architecture names
+func parseArchInto
+  requires ret != nil
+  modifies ret.ABI, ret.OS, ret.CPU
+
+func ParseArch
+  ensures result1 == nil ==> result0 != nil && fresh(result0)
+
+func ParseArchitectures
+  ensures result1 != nil ==> result0 == nil
+  loop 1:
+    invariant -1 <= rangeindex && rangeindex < len(arches)
+    decreases len(arches) - rangeindex
+
+func (*Arch).UnmarshalControl
+  requires arch != nil
+  modifies arch.ABI, arch.OS, arch.CPU
+
+// a value xor an error
+func Parse
+  ensures result1 != nil ==> result0 == nil
+  ensures result1 == nil ==> result0 != nil
+
+property C18: parseArchInto, ParseArch, ParseArchitectures, (*Arch).UnmarshalControl, (*input).Peek, (*input).Next, eatWhitespace, parsePossibilityOperator, parsePossibilityNumber, parsePossibilityVersion,
+  parsePossibilityArch, parsePossibilityArchs, parsePossibilityStage, parsePossibilityStageSet, parsePossibilityControllers,
+  parseMultiarch, parseSubstvar, parsePossibility, parseRelation, parseDependency, Parse
+
+property C04: (*input).Peek, (*input).Next, eatWhitespace, parsePossibilityOperator, parsePossibilityNumber, parsePossibilityVersion,
+  parsePossibilityArch, parsePossibilityArchs, parsePossibilityStage, parsePossibilityStageSet, parsePossibilityControllers,
+  parseMultiarch, parseSubstvar, parsePossibility, parseRelation, parseDependency, Parse
+
 @*/
